@@ -605,3 +605,13 @@ def f64_variant(b: Batch, salt: int = 1) -> Batch:
                 a = a * f
         return a
     return Batch(tuple(conv(a) for a in b.args), {k: conv(v) for k, v in b.kwargs.items()})
+
+
+def finding_class(spec: Spec, cfg: dict) -> str:
+    """configuration class that is part of a violation signature, so that a recorded finding covers exactly the
+    configurations it was established for (a different configuration of the same class is still reported)."""
+    if spec.name == "RetrievalPrecision":
+        return f"|empty_target_action={cfg.get('empty_target_action', 'neg')}"
+    if spec.name == "RetrievalRecall":
+        return "|k=None" if cfg.get("k") is None else "|k=int"
+    return ""
